@@ -186,10 +186,39 @@ def tlc(module, cfg=None, workers=4, env=None, timeout=1800, extra=None, heap="4
     return r
 
 
+def _gb(h):
+    h = str(h).lower()
+    return float(h[:-1]) / (1024.0 if h.endswith('m') else 1.0) if h[-1] in 'gm' else float(h) / 2 ** 30
+
+
+def mem_budget_gb():
+    """memory the JVMs of one check may use together: VERIF_MEM_GB, else 60% of min(cgroup limit, MemTotal), at most 30"""
+    if os.environ.get("VERIF_MEM_GB"):
+        return float(os.environ["VERIF_MEM_GB"])
+    lim = 1e9
+    try:
+        for line in open("/proc/meminfo"):
+            if line.startswith("MemTotal:"):
+                lim = int(line.split()[1]) / 2 ** 20
+    except OSError:
+        pass
+    for p in ("/sys/fs/cgroup/memory.max", "/sys/fs/cgroup/memory/memory.limit_in_bytes"):
+        try:
+            v = open(p).read().strip()
+            if v.isdigit():
+                lim = min(lim, int(v) / 2 ** 30)
+        except OSError:
+            pass
+    return max(4.0, min(30.0, 0.6 * lim))
+
+
 def tlc_parallel(jobs, nproc=None):
     """jobs: list of dict(kwargs for tlc()).  Runs them nproc at a time.  Returns results."""
     from concurrent.futures import ThreadPoolExecutor
     nproc = nproc or max(1, NCPU // 2)
+    # concurrent JVMs are bounded by memory as well as by cores (heap + ~0.6 GB of JVM overhead each)
+    need = max([j.pop('est', None) or _gb(j.get('heap', '4g')) + 0.6 for j in jobs] or [1])
+    nproc = max(1, min(nproc, int(mem_budget_gb() // need)))
     with ThreadPoolExecutor(max_workers=nproc) as ex:
         futs = [ex.submit(tlc, **j) for j in jobs]
         return [f.result() for f in futs]
@@ -221,7 +250,9 @@ def tlc_fold(module, cfg, rec_files, heap="3g", timeout=3000, nproc=None, extra_
     for fn in rec_files:
         env = {"RECS": fn, "OUT": fn + ".out"}
         env.update(extra_env or {})
-        jobs.append(dict(module=module, cfg=cfg, workers=1, env=env, heap=heap, timeout=timeout))
+        # small record files never grow the JVM near its limit: count them as 1.5 GB when deciding how many run at once
+        est = _gb(heap) + 0.6 if os.path.getsize(fn) > 4 << 20 else min(_gb(heap) + 0.6, 1.5)
+        jobs.append(dict(module=module, cfg=cfg, workers=1, env=env, heap=heap, timeout=timeout, est=est))
     res = tlc_parallel(jobs, nproc=nproc or NCPU)
     outs = []
     for fn, r in zip(rec_files, res):
